@@ -1,7 +1,7 @@
 SPECIFICATION TSpec
 CONSTANTS Devs = @DEVS@
           Cases = {}
-INVARIANTS TypeOK VisitedSafe VisitedExact DepthShortest FetchedExact LocalExact THandlerCallsRight
+INVARIANTS TypeOK VisitedSafe VisitedExact DepthShortest FetchedExact LocalExact HandlerCidRight HandlerOwnFailure THandlerCallsRight
            TProvidedExact TResultRight DevReport
 CONSTRAINT TraceConstraint
 POSTCONDITION TracePost
